@@ -178,3 +178,107 @@ class GrowSet(SOpaque):
                 return g
             return SFunc("model", cp)
         raise Unsupported(f"set method {name} on a set of unknown content")
+
+
+# ---- array-backed containers of unbounded size (for inductive loop invariants) -----------------------------------------
+
+class SymSet(SOpaque):
+    """a python set of unknown size whose content is a z3 set term (Array K Bool).  `enc(I, value) -> K term` encodes an
+    element.  The object is mutable (`term` is updated in place), so aliasing between two program variables is the
+    python-level identity of this object; equality of two different objects is extensional equality of the terms.
+    len() is an uninterpreted cardinality with  card >= 0  and  card == 0  <=>  term == empty  (all the code under
+    contract asks)."""
+
+    def __init__(self, name, ksort, enc, term=None):
+        super().__init__(name, cls=set)
+        self.ksort, self.enc = ksort, enc
+        self.term = term if term is not None else z3.EmptySet(ksort)
+
+    @property
+    def nonempty(self):
+        return self.term != z3.EmptySet(self.ksort)
+
+    def length(self, I):
+        from .symexec import SInt
+        card = z3.Function(f"card[{self.ksort}]", z3.SetSort(self.ksort), z3.IntSort())
+        c = card(self.term)
+        I.fact(c >= 0)
+        I.fact((c == 0) == (self.term == z3.EmptySet(self.ksort)))
+        return SInt(c)
+
+    def contains(self, I, v):
+        return z3.IsMember(self.enc(I, v), self.term)
+
+    def opaque_eq(self, I, other):
+        if isinstance(other, SymSet):
+            return self.term == other.term
+        return False
+
+    def as_absset(self):
+        return SymSet(self.name + "'", self.ksort, self.enc, self.term)
+
+    def getattr(self, I, name):
+        if name == "add":
+            def add(I2, a, k):
+                self.term = z3.SetAdd(self.term, self.enc(I2, a[0]))
+            return SFunc("model", add)
+        if name == "copy":
+            return SFunc("model", lambda I2, a, k: self.as_absset())
+        if name == "discard":
+            def discard(I2, a, k):
+                self.term = z3.SetDel(self.term, self.enc(I2, a[0]))
+            return SFunc("model", discard)
+        raise Unsupported(f"set method {name} on a set of unbounded size")
+
+
+class SymDict(SOpaque):
+    """a python dict of unknown size: z3 Array String -> V with a distinguished `absent` value of V.  `dec(I, v term)`
+    turns a stored term into the python-side value, `encv(I, value)` the reverse."""
+
+    def __init__(self, name, vsort, absent, encv, dec, term=None):
+        super().__init__(name, cls=dict)
+        self.vsort, self.absent, self.encv, self.dec = vsort, absent, encv, dec
+        self.term = term if term is not None else z3.K(z3.StringSort(), absent)
+
+    @property
+    def nonempty(self):
+        return self.term != z3.K(z3.StringSort(), self.absent)
+
+    def _k(self, I, k):
+        return _key_term(I, k)
+
+    def contains(self, I, k):
+        return z3.Select(self.term, self._k(I, k)) != self.absent
+
+    def getitem(self, I, k):
+        kt = self._k(I, k)
+        if I.branch(z3.Select(self.term, kt) == self.absent):
+            I.raise_(KeyError, "key")
+        return self.dec(I, z3.Select(self.term, kt))
+
+    def setitem(self, I, k, v):
+        self.term = z3.Store(self.term, self._k(I, k), self.encv(I, v))
+
+    def delitem(self, I, k):
+        kt = self._k(I, k)
+        if I.branch(z3.Select(self.term, kt) == self.absent):
+            I.raise_(KeyError, "key")
+        self.term = z3.Store(self.term, kt, self.absent)
+
+    def getattr(self, I, name):
+        if name in ("pop", "get"):
+            def pop(I2, a, k):
+                kt = self._k(I2, a[0])
+                cur = z3.Select(self.term, kt)
+                if I2.branch(cur == self.absent):
+                    if len(a) > 1 or "default" in k:
+                        return a[1] if len(a) > 1 else k["default"]
+                    if name == "get":
+                        return None
+                    I2.raise_(KeyError, "key")
+                v = self.dec(I2, cur)
+                if name == "pop":
+                    self.term = z3.Store(self.term, kt, self.absent)
+                return v
+            return SFunc("model", pop)
+        raise Unsupported(f"dict method {name} on a dict of unbounded size")
